@@ -64,7 +64,10 @@ class Toy:
             if n in used:
                 continue
             v0 = start[n]
-            rng = {"two": [v0 - lo, v0 + hi], "lower": [v0 - lo, None], "upper": [None, v0 + hi]}[kind]
+            if kind.startswith("zero"):
+                # a limit of exactly 0 (magnitudes >= 0, phases in [0, x]) with the start point close to it
+                v0 = start[n] = -0.1 if kind == "zero_upper" else 0.1
+            rng = {"two": [v0 - lo, v0 + hi], "lower": [v0 - lo, None], "upper": [None, v0 + hi], "zero_two": [0, v0 + hi], "zero_lower": [0, None], "zero_upper": [v0 - lo, 0]}[kind]
             self.bounds[n] = rng
             used.add(n)
         for i, off, sig in c["gauss"]:
@@ -133,23 +136,30 @@ def fit_history(ctx, case):
     nfits = 0
     cls = set()
     last = None
-    for k, op in enumerate(case["steps"]):
+    steps = [list(op) for op in case["steps"]]
+    if case.get("first_grad_scale", 1.0) != 1.0 and steps and steps[0][0] == "fit":
+        steps[0] = steps[0][:3] + [case["first_grad_scale"]]
+    for k, op in enumerate(steps):
         kind = op[0]
         where = "step %d %s" % (k, op)
         if kind == "fit":
             method, maxiter = op[1], op[2]
+            gs = float(op[3]) if len(op) > 3 else 1.0
+            extra = {"grad_scale": gs} if gs != 1.0 else {}
             nll0 = toy.nll()
             before = {n: float(v) for n, v in amp.get_params().items()}
             try:
                 if method in SLOW:
-                    res = config.fit(data=toy.all_data[0], phsp=toy.all_data[1], method=method, print_init_nll=False)
+                    res = config.fit(data=toy.all_data[0], phsp=toy.all_data[1], method=method, print_init_nll=False, **extra)
                 else:
-                    res = config.fit(data=toy.all_data[0], phsp=toy.all_data[1], method=method, maxiter=maxiter, print_init_nll=False)
+                    res = config.fit(data=toy.all_data[0], phsp=toy.all_data[1], method=method, maxiter=maxiter, print_init_nll=False, **extra)
             except LargeNumberError:
                 cls.add("large_number_path")
                 continue
             nfits += 1
             cls.add("method=" + method)
+            if gs != 1.0:
+                cls.add("grad_scale!=1")
             live = {n: float(v) for n, v in amp.get_params().items()}
             # (the minuit front end lists the free parameters only)
             ctx.check(set(res.params.keys()) <= set(live.keys()) and set(amp.vm.trainable_vars) <= set(res.params.keys()), "result_names", "%s: %s" % (where, sorted(set(res.params) ^ set(live))[:5]))
@@ -212,6 +222,8 @@ def fit_history(ctx, case):
     methods = {c for c in cls if c.startswith("method=")}
     if toy.bounds:
         cls.add("bounded")
+        if any(0 in (lo, hi) for lo, hi in toy.bounds.values()):
+            cls.add("bound_limit_exactly_zero")
     if toy.tied:
         cls.add("tied")
     if toy.fixed:
@@ -226,7 +238,7 @@ cons_st = st.fixed_dictionaries(
     {
         "fix": st.lists(st.tuples(st.integers(0, 20), st.floats(0.3, 1.5)), max_size=1),
         "tie": st.lists(st.tuples(st.integers(0, 20), st.integers(0, 20)), max_size=1),
-        "bound": st.lists(st.tuples(st.integers(0, 20), st.sampled_from(["two", "lower", "upper"]), st.floats(0.2, 1.5), st.floats(0.2, 1.5)), max_size=2),
+        "bound": st.lists(st.tuples(st.integers(0, 20), st.sampled_from(["two", "lower", "upper", "zero_two", "zero_lower", "zero_upper"]), st.floats(0.2, 1.5), st.floats(0.2, 1.5)), max_size=2),
         "gauss": st.lists(st.tuples(st.integers(0, 20), st.floats(-0.2, 0.2), st.floats(0.05, 0.5)), max_size=1),
     }
 )
@@ -235,7 +247,7 @@ cons_st = st.fixed_dictionaries(
 def step_st(methods):
     return st.one_of(
         st.tuples(st.just("fit"), st.sampled_from(methods), st.sampled_from([1, 3, 30, None])),
-        st.tuples(st.just("fit"), st.sampled_from(methods), st.sampled_from([1, 3, 30, None])),
+        st.tuples(st.just("fit"), st.sampled_from(methods), st.sampled_from([1, 3, 30, None]), st.sampled_from([1.0, 0.25, 4.0])),
         st.tuples(st.just("perturb"), st.lists(st.tuples(st.integers(0, 20), st.floats(-0.5, 0.5)), min_size=1, max_size=3)),
         st.tuples(st.just("save_load_result")),
         st.tuples(st.just("save_params")),
@@ -252,6 +264,7 @@ def case_st(methods, max_steps=4):
             "n_phsp": st.integers(150, 250),
             "seed": st.integers(0, 2**31 - 1),
             "steps": st.lists(step_st(methods), min_size=1, max_size=max_steps).map(lambda s: [("fit", methods[0], 30)] + list(s)),
+            "first_grad_scale": st.sampled_from([1.0, 1.0, 0.25, 4.0]),
         }
     )
 
